@@ -384,7 +384,11 @@ func (c *Ctx) ruleExhaustion(id string) {
 	}
 	midGet := c.im(ru, "wasp", "midPool", "Get")
 	c.R.Fn(c.fname(ip.get))
-	paths, err := core.EnumPaths(ip.get, core.PathOpts{})
+	isMethod := map[*ssa.Function]bool{}
+	for _, f := range c.poolMethods(ip) {
+		isMethod[f] = true
+	}
+	paths, err := c.pathsInlinedPkg(ip.get, core.PathOpts{}, func(g *ssa.Function) bool { return !isMethod[g] })
 	if err != nil {
 		ru.Undecided("empty-list paths of "+c.fname(ip.get), c.whereF(ip.get), err.Error())
 		return
@@ -405,7 +409,7 @@ func (c *Ctx) ruleExhaustion(id string) {
 				continue
 			}
 			searches := map[ssa.Value]string{}
-			a, b := c.poolTerm(ip, bo.X, searches), c.poolTerm(ip, bo.Y, searches)
+			a, b := c.poolTermOn(p, ip, bo.X, searches), c.poolTermOn(p, ip, bo.Y, searches)
 			if a.ok && b.ok {
 				onlyZero := true
 				models([]string{"L"}, []linFact{{a, b, bo.Op, d.Val}}, func(env map[string]int64) bool {
